@@ -8,6 +8,8 @@ C09.ret    both converters return a value on every path (an entity / a node, nev
 C09.same   every attribute / data the serialiser writes from input is fed by the same (path, key) of the input
 C09.kept   every (path, key) the parser stores in the entity is written back at the same place
 C09.api    every method invoked on a ProtocolTreeNode exists
+C09.fresh  a container a converter loop fills and hands to the per-element object is allocated inside the loop
+C09.wire   C01's codec round-trip rules adopted (a stanza survives the codec unchanged)
 C09.codec  attribute values that are definitely not strings (int / None) and data that is definitely str are flagged
 """
 import ast
@@ -193,7 +195,72 @@ def analyse_class(ctx, repo, cls, tag):
     return out
 
 
+MUTATORS = {"append", "extend", "update", "add", "insert", "setdefault"}
+
+
+def rule_fresh(ctx):
+    """per-element containers: inside a converter, a container that a loop body fills and hands to the object it builds
+    for this element must be allocated inside that loop body - otherwise every element's object shares one container
+    and sees the other elements' entries (fields altered for every element but the first)."""
+    repo = ctx.repo
+    n = 0
+    for m in sorted(repo.modules.values(), key=lambda m: m.relpath):
+        if "/protocolentities/" not in m.relpath or "/test_" in m.relpath.rsplit("/", 1)[-1] or m.relpath.rsplit("/", 1)[-1].startswith("test_"):
+            continue
+        for cls_node in [c for c in ast.walk(m.tree) if isinstance(c, ast.ClassDef)]:
+            for fn in [f for f in cls_node.body if isinstance(f, ast.FunctionDef)]:
+                for L in [x for x in ast.walk(fn) if isinstance(x, ast.For)]:
+                    body_nodes = [x for st in L.body for x in ast.walk(st)]
+                    mutated = set()
+                    for x in body_nodes:
+                        if isinstance(x, (ast.Assign, ast.AugAssign)):
+                            for t in (x.targets if isinstance(x, ast.Assign) else [x.target]):
+                                if isinstance(t, ast.Subscript) and isinstance(t.value, ast.Name):
+                                    mutated.add(t.value.id)
+                        if isinstance(x, ast.Call) and isinstance(x.func, ast.Attribute) and x.func.attr in MUTATORS and isinstance(x.func.value, ast.Name):
+                            mutated.add(x.func.value.id)
+                    escaping = {}
+                    for x in body_nodes:
+                        if isinstance(x, ast.Call):
+                            recv = x.func.value.id if isinstance(x.func, ast.Attribute) and isinstance(x.func.value, ast.Name) else None
+                            for a in list(x.args) + [k.value for k in x.keywords]:
+                                for y in ast.walk(a):
+                                    if isinstance(y, ast.Name) and y.id in mutated and y.id != recv:
+                                        escaping.setdefault(y.id, x)
+                    for name, call in sorted(escaping.items()):
+                        inside = [x for x in body_nodes if isinstance(x, ast.Assign) and any(isinstance(t, ast.Name) and t.id == name for t in x.targets)]
+                        inside += [x for x in body_nodes if isinstance(x, (ast.For, ast.comprehension)) and isinstance(x.target, ast.Name) and x.target.id == name]
+                        repo.consulted.add(m.relpath)
+                        n += 1
+                        ctx.check("C09.fresh", bool(inside), where(m.relpath, "%s.%s" % (cls_node.name, fn.name), L.lineno),
+                                  "for %s in %s: container `%s` handed to %s" % (unparse(L.target), unparse(L.iter), name, unparse(call.func)),
+                                  "`%s` is filled inside this loop and handed to the object built for each element, but it is bound once outside the loop: "
+                                  "all elements share it and each sees the entries of the elements before it" % name,
+                                  "`%s` is bound afresh in every iteration" % name)
+    ctx.units["C09.per_element_containers"] = n
+
+
+def rule_wire(ctx):
+    """'survives the codec unchanged': given well-typed tags / attributes / data (C09.codec), a stanza survives iff the
+    codec is a round trip - that is C01's rule set, adopted here so that a codec change is reported against C09 too."""
+    from . import c01
+    from ..report import Ctx
+    scratch = Ctx(ctx.repo, "C01", ctx.tier)
+    for r in ("C01.tags", "C01.int", "C01.class", "C01.pack", "C01.dbl", "C01.unpack"):
+        scratch.rule(r, "", 0)
+    widths = c01.rule_int(scratch)
+    c01.rule_class(scratch, widths)
+    c01.rule_tags(scratch)
+    c01.rule_dbl(scratch)
+    tables = c01.rule_pack(scratch)
+    if tables:
+        c01.rule_unpack(scratch, tables)
+    ctx.adopt(scratch, {r: "C09.wire" for r in ("C01.tags", "C01.int", "C01.class", "C01.pack", "C01.dbl", "C01.unpack")})
+
+
 def run(ctx):
+    ctx.rule("C09.wire", "the codec the stanzas pass through is a round trip (C01.int/class/tags/dbl/pack/unpack adopted)", floor=40)
+    ctx.rule("C09.fresh", "containers filled per element inside converter loops are allocated per element", floor=5)
     ctx.rule("C09.ret", "converters return an entity / a node on every path", floor=40)
     ctx.rule("C09.same", "written values are fed by the same (path, key) of the input", floor=40)
     ctx.rule("C09.kept", "stored (path, key) are written back", floor=40)
@@ -314,3 +381,5 @@ def rule_codec_sent(ctx, repo):
             probs += sorted({t for _, t in it.api_misuse})
         ctx.check("C09.codec", not probs, w, label, "; ".join(probs[:3]) + " (the encoder needs strings for tags/attributes and bytes for data)", "no definitely mistyped tag, attribute value or data")
     ctx.units["C09.sent_classes_analysed"] = n
+    rule_wire(ctx)
+    rule_fresh(ctx)
